@@ -475,6 +475,38 @@ TableCodon(t, aa) ==
     /\ OnlyOut
 
 (***************************************************************************)
+(* The codec tables as an action (C05): everything one cell of a codec's   *)
+(* tables answers for byte b -- as a bit pattern, as ASCII input, and (if  *)
+(* b is the canonical code of a symbol) the symbol's character, code,      *)
+(* complement and mask.  -3 = not specified / not applicable.              *)
+(***************************************************************************)
+CellExpected(c, b) ==
+    LET d == Decode(c, b)
+        a == FromAscii(c, b)
+        isSym == c # "text" /\ b \in CodesOf(c)
+        isTextSym == c = "text"
+    IN  [tfb |-> d,                                   \* try_from_bits
+         ufb |-> IF d # NoSym THEN d ELSE -3,          \* unchecked decoder: only where the fallible one succeeds
+         tfa |-> a,
+         ufa |-> IF a # NoSym THEN a ELSE -3,
+         ch |-> IF isSym \/ isTextSym THEN Char(c, b) ELSE -3,       \* to_char of the symbol with this code
+         bits |-> IF isSym \/ isTextSym THEN b ELSE -3,
+         comp |-> IF isSym /\ HasComp(c) THEN Comp(c, b) ELSE -3,
+         mask |-> IF isSym /\ (c = "miupac" \/ (c = "mdna" /\ b \in MDnaCaseSyms \cup MDnaFixedSyms))
+                  THEN Mask(c, b) ELSE -3,
+         unmask |-> IF isSym /\ (c = "miupac" \/ (c = "mdna" /\ b \in MDnaCaseSyms \cup MDnaFixedSyms))
+                    THEN Unmask(c, b) ELSE -3]
+
+Cell(c, b) ==
+    /\ out' = CellExpected(c, b)
+    /\ OnlyOut
+
+\* width and symbol list (sorted by code)
+CodecInfo(c) ==
+    /\ out' = [w |-> W(c), items |-> SetToSortSeq(CodesOf(c), <)]
+    /\ OnlyOut
+
+(***************************************************************************)
 (* Properties of the machine                                               *)
 (***************************************************************************)
 TypeOK ==
